@@ -8,6 +8,8 @@ pub mod verif_glue
     use crate::symsys::*;
     use crate::ticket::verif::*;
     use crate::blob::FileState;
+    use std::cmp::PartialEq;
+    use std::clone::Clone;
 
     pub static mut N : usize = 1;
     pub static mut RESOLVE_CALLS : usize = 0;
@@ -35,14 +37,13 @@ pub mod verif_glue
     {
         let n = unsafe { N };
         if crate::blob::verif::blob_len(blob) != n { return false; }
-        let infos = &blob.get_file_infos();
         let mut ok = true;
         let mut i = 0;
         while i < n
         {
-            let b = infos[i].path.as_bytes();
+            let b = crate::blob::verif::blob_path(blob, i).as_bytes();
             if !(b.len() == 1 && b[0] == b'a' + i as u8) { ok = false; }
-            if infos[i].file_state.timestamp != 7_000_000u64 + i as u64 { ok = false; }
+            if crate::blob::verif::blob_state(blob, i).timestamp != 7_000_000u64 + i as u64 { ok = false; }
             i += 1;
         }
         ok
@@ -106,11 +107,9 @@ pub mod verif_glue
                 std::mem::forget(blob);
                 return Err(WorkError::CommandExecutedButErrored);
             }
-            let mut t = Vec::with_capacity(1);
-            t.push(ticket_foreign(77));
             Ok(WorkResult
             {
-                file_state_vec : FileStateVec::from_ticket_vec(t),
+                file_state_vec : crate::blob::verif::fsv1(ticket_foreign(77)),
                 blob : blob,
                 work_option : WorkOption::CommandExecuted(CommandLineOutput { out : String::new(), err : String::new(), code : Some(0), success : true }),
                 rule_history : Some(rule_history),
@@ -129,9 +128,7 @@ pub mod verif_glue
             {
                 return Err(GetFileStateError::FileNotFound(String::from("b")));
             }
-            let mut t = Vec::with_capacity(1);
-            t.push(ticket_foreign(88));
-            Ok(FileStateVec::from_ticket_vec(t))
+            Ok(crate::blob::verif::fsv1(ticket_foreign(88)))
         }
     }
 
@@ -140,6 +137,7 @@ pub mod verif_glue
     #[kani::stub(<crate::ticket::Ticket as PartialEq>::eq, crate::ticket::verif_eq::ticket_eq_words)]
     #[kani::stub(alloc::alloc::dealloc, crate::stubs::dealloc_noop)]
     #[kani::stub(alloc::fmt::format, crate::stubs::format_empty_stub)]
+    #[kani::stub(<std::string::String as Clone>::clone, crate::stubs::string_clone_short)]
     #[kani::stub(crate::work::resolve_with_cache, crate::work::verif_glue::resolve_model)]
     #[kani::stub(crate::work::rebuild_node, crate::work::verif_glue::rebuild_model)]
     #[kani::stub(crate::blob::Blob::get_current_file_state_vec, crate::work::verif_glue::tail_model)]
@@ -172,9 +170,7 @@ pub mod verif_glue
             st
         });
         let mut ent = Vec::with_capacity(1);
-        let mut tv = Vec::with_capacity(1);
-        tv.push(ticket_of_content(1));
-        ent.push((ticket_foreign(9), FileStateVec::from_ticket_vec(tv)));
+        ent.push((ticket_foreign(9), crate::blob::verif::fsv1(ticket_of_content(1))));
         let history = crate::history::verif::history_from_entries(ent);
         let mut info = HandleNodeInfo::new(SymSystem {});
         info.blob = blob;
